@@ -227,7 +227,8 @@ impl OHLCV for RenkoOutput {
 
 	#[inline]
 	fn close(&self) -> ValueType {
-		self.base_line + self.gap()
+		// `gap` is relative to the base line, like `brick_size`: the close of the last generated block
+		self.gap().mul_add(self.base_line, self.base_line)
 	}
 
 	#[inline]
